@@ -2,7 +2,7 @@
     Statements only; every proof is [exact <lemma>] (or a vm_compute over the
     facts table regenerated from /repo's Go AST on this run). *)
 From Coq Require Import String List Bool Arith.
-From Raven Require Import Base.GoStr Model.ProtoFacts Model.Protocol Model.ProtoLine Proof.Protocol Gen.Facts.
+From Raven Require Import Base.GoStr Model.ProtoFacts Model.Protocol Model.ProtoLine Proof.Protocol Proof.ProtocolTrace Gen.Facts.
 Import ListNotations.
 
 (** (a)(b)(c) For ANY facts table satisfying [guards_ok], for every connection
@@ -57,6 +57,38 @@ Theorem c06_auth_only_by_accepted_login : forall t st w e st' evs,
   is_login w = true /\ e_reply_ok e = true /\ c_tls st = true /\ e_ok200 e = true.
 Proof. exact auth_only_by_accepted_login. Qed.
 Print Assumptions c06_auth_only_by_accepted_login.
+
+(** (a) over whole command sequences: for every connection kind, every finite
+    sequence of command words and every oracle, a session that is authenticated
+    (or has a mailbox selected) at the end of the sequence has gone through an
+    ACCEPTED login in it — a LOGIN/AUTHENTICATE line on TLS whose backend
+    request was answered 200 and whose own tagged completion is OK. *)
+Theorem c06_authenticated_run_has_accepted_login : forall t,
+  guards_ok t = true -> f_auth_final t = true ->
+  forall tls cmds stf tr, run t (init_state tls) cmds = Some (stf, tr) ->
+  (c_auth stf = true \/ c_sel stf = true) -> Exists accepted_login tr.
+Proof. exact fresh_auth_needs_accepted_login. Qed.
+Print Assumptions c06_authenticated_run_has_accepted_login.
+
+(** ... every command of a run in which the session turns authenticated is an
+    accepted login (no other command, and no refused login, authenticates) *)
+Theorem c06_every_auth_edge_is_accepted_login : forall t,
+  guards_ok t = true -> f_auth_final t = true ->
+  forall cmds st stf tr, Inv st -> run t st cmds = Some (stf, tr) ->
+  Forall (fun o => becomes_auth o -> accepted_login o) tr.
+Proof. exact every_auth_edge_is_accepted_login. Qed.
+Print Assumptions c06_every_auth_edge_is_accepted_login.
+
+(** ... and a sequence without an accepted login runs every one of its commands
+    unauthenticated with nothing selected (with c06_gate_of_table: it touches a
+    store only inside a login line answered 200 on TLS) *)
+Theorem c06_no_accepted_login_stays_out : forall t,
+  guards_ok t = true -> f_auth_final t = true ->
+  forall cmds st stf tr, Inv st -> c_auth st = false ->
+  run t st cmds = Some (stf, tr) -> Forall (fun o => ~ accepted_login o) tr ->
+  c_auth stf = false /\ Forall (fun o => c_auth (o_pre o) = false /\ c_sel (o_pre o) = false) tr.
+Proof. exact no_login_stays_out. Qed.
+Print Assumptions c06_no_accepted_login_stays_out.
 
 (** The obligations on the CURRENT tree: recomputed from the regenerated table. *)
 Theorem c06_facts_now :
